@@ -27,7 +27,8 @@ COMPONENTS = {"real": ["server Transport + AuthHandler + key classes unmodified"
               "simulated": ["socket", "clock", "scheduling", "entropy"], "stubbed": ["GSS-API context (python-gssapi is not installed)"]}
 ASSUMPTIONS = ["validity of a publickey signature is known by construction (the harness builds it)"]
 KEYS = ("rsa1", "ecdsa256_1", "ecdsa384_1", "ecdsa521_1", "ed25519_1")
-ALTER = (None, None, "session", "user", "service", "algo", "key", "sigbytes", "sig-short", "sig-long", "sig-empty", "sig-negative")
+ALTER = (None, None, "session", "user", "service", "algo", "key", "sigbytes", "sig-short", "sig-long", "sig-empty", "sig-negative",
+         "sig-relabel", "sig-junk-relabel")
 METHOD_OF_CB = {"keyboard-interactive-response": "keyboard-interactive"}
 
 
